@@ -5,3 +5,6 @@ INVARIANT WrongValueRejected
 INVARIANT WrongTypeRejected
 INVARIANT ForeignKeyRejected
 CHECK_DEADLOCK FALSE
+INVARIANT DupOnceAccepted
+INVARIANT DupTwiceRejected
+INVARIANT DupMissRejected
